@@ -923,7 +923,7 @@ impl World {
             }
             Ok(Err(e)) => TxOut {
                 ok: false,
-                err: Some(format!("{:#}", e)),
+                err: Some(e.root_cause().to_string()),
                 panicked: false,
                 events: vec![],
                 transfers: vec![],
